@@ -12,7 +12,12 @@ CHECK = {
                  "(address,length) from one below the first area up to 0xffffffff with address+length <= 2^32; "
                  "(7) access flags x accessor presence: tables of three adjacent areas in which the area at each position takes every combination of "
                  "{memory-, callback-backed} x READABLE flag x read function present/absent x WRITEABLE flag x write function present/absent, at address 1 and "
-                 "ending at 0xffffffff, every window",
+                 "ending at 0xffffffff, every window; "
+                 "(8) intervening calls: 125 tables of three adjacent areas (each memory RW / callback RW / callback read-only without write function / memory "
+                 "read-only without write function / callback write-only; a range-constrained 16-bit register at every base) x 19 calls of another kind between "
+                 "register_init and the reads (sanitise on sane registers and after each register was poked out of range -- repaired, or refused where the area "
+                 "cannot be written --, refused and accepted typed set and block write per register, block write into a hole, typed reads / bit operations / "
+                 "touch marks incl. a bad handle, an iteration stopped with -1) x every window x {block read, iteration}",
     "rule": "a case is (table or history, operation, window[, fault position]): block read compared word by word with the flat model on an exact-size "
             "heap buffer (under a fired read fault only memory safety, storage purity and 'a reported success holds the stored words' are demanded), "
             "or iteration run under every script (never stop; k-th call returns -1/+1; large tables: first/last call) and compared with the list of "
@@ -37,6 +42,12 @@ CHECK = {
                     "does); areas flagged readable without read function occur only in family (7): 384 tables = 2 address positions x 3 list positions x 2 neighbour "
                     "backings x 32 combinations; the class read-ok-flagged-readable-no-read-function is not required (a library refusing such an area at register_init "
                     "ends these tables as init-refused with a cap; what register_init accepts is C04's business)",
+                    "family (8): a successfully initialised table stays 'an initialised table' whatever other public operation ran on it, accepted or refused "
+                    "(no statement gives sanitise, set or block write the power to take a table out of service; what the intervening call itself answers is not judged "
+                    "here); no callback fault is injected in this family (what a library does after a driver I/O error is left open); the reads are compared with the "
+                    "storage as it is after the call; the after-* outcome classes are not required",
+                    "area accessors are handed either the table's own descriptor or a copy of it (a library may pass a snapshot): the harness identifies the area by its "
+                    "place in the array or, for a copy, by base and size looked up in the table spec, and judges bounds (offset + count <= size) against that entry",
                     "the statement does not fix the return value of an iteration that visits nothing outside the table: when no callback was called and no address "
                     "of the range is mapped any code is accepted",
                     "ranges that wrap around the 32-bit address space (address + length > 2^32) are outside the statement and not generated",
